@@ -41,6 +41,7 @@ type Obligation struct {
 	Result  SolveResult
 	Extra   []string // extra hypotheses (split cases)
 	MustFail bool    // vacuity probe: expected to be refuted/unknown
+	NoRetry  bool // listed known finding: not retried with a longer time-out
 	Candidate bool
 }
 
@@ -130,6 +131,7 @@ type VC struct {
 	loopStack []*loopSnap
 	cbVars map[string]*types.Var
 	cbinvV *types.Var
+	clientinvV *types.Var
 	frameCache *frameSpec
 	loopWrites map[int]map[string]bool
 	lastWritten map[string]bool
